@@ -511,6 +511,11 @@ def verdict(prop, mod, tier, seed, groups, results, t0, a):
         rp = ob.get('replay') or {}
         reproduced = bool(rp.get('reproduced'))
         in_base = baseline is not None and stem in baseline
+        if not reproduced and ob.get('kind') == 'shape' and not ob.get('bounded'):
+            # an obligation about the ARRANGEMENT of the code (a block was located, a callee is reached exactly once, ...): the proof built on that arrangement does
+            # not apply to this source; only a failing input found by the replay would make it a violation
+            undecided.append('%s: %s: the code is not arranged as this proof expects and the replay on the real code found no failing input' % (gname, ob['name']))
+            continue
         if not reproduced and not in_base and not ob.get('bounded'):
             undecided.append('%s: %s refuted by the solver but not reproduced on the real code and not in the committed baseline' % (gname, ob['name']))
             continue
